@@ -464,11 +464,13 @@ theorem fieldCore_sound {c : Cfg} {name : Str} {tag : Option Str} {isSlice : Boo
     fieldSat c name tag isSlice k m v conv absent dflt isZ = true := by
   unfold fieldCore at h
   unfold fieldSat
+  have hrep : c.repaired = c := by cases c; simp_all [Cfg.repaired]
+  rw [hrep]
   cases tag with
   | none => simp at h; subst h; simpa using hz
   | some tv =>
     simp only at h ⊢
-    cases hp : parseTag name tv with
+    cases hp : parseTagC c name tv with
     | error e => simp [hp] at h
     | ok kp =>
       obtain ⟨key, po⟩ := kp
